@@ -432,9 +432,14 @@ pub struct Meta {
     pub assumptions: &'static [&'static str],
 }
 
+/// Where evidence and replay files go (`/verif` unless VP_OUT_DIR is set, e.g. by the mutant runner).
+pub fn out_dir() -> String {
+    std::env::var("VP_OUT_DIR").unwrap_or_else(|_| VERIF_DIR.to_string())
+}
+
 pub fn write_replay(id: &str, v: &Violation) -> String {
     let fp = fingerprint(&(&v.phase, &v.sig, &v.case));
-    let dir = format!("{VERIF_DIR}/replays");
+    let dir = format!("{}/replays", out_dir());
     let _ = std::fs::create_dir_all(&dir);
     let path = format!("{dir}/{id}-{:016x}.json", fp);
     let body = json!({"property_id": id, "phase": v.phase, "sig": v.sig, "msg": v.msg, "case": v.case});
@@ -482,7 +487,7 @@ pub fn write_evidence(cx: &Cx, meta: &Meta, acc: &Acc, wall_s: f64, extra: Value
         "wall_s": (wall_s * 1000.0).round() / 1000.0,
         "violations": acc.violations.len(),
     });
-    let dir = format!("{VERIF_DIR}/evidence");
+    let dir = format!("{}/evidence", out_dir());
     let _ = std::fs::create_dir_all(&dir);
     let path = format!("{dir}/{}.json", cx.id);
     let tmp = format!("{path}.tmp");
